@@ -168,6 +168,7 @@ func scanWorker(ctx context.Context, jobs <-chan scanJob, results chan<- reporte
 			problems := job.check.Check(ctx, job.entry, job.allEntries)
 			checkDuration.WithLabelValues(job.check.Reporter()).Observe(time.Since(start).Seconds())
 			for _, problem := range problems {
+				verifJitter()
 				results <- reporter.Report{
 					Path:          job.entry.Path,
 					ModifiedLines: job.entry.ModifiedLines,
